@@ -14,6 +14,19 @@ from spec import smp as S
 ENVIRONMENT = [
     'two-party liveness ("either both complete or both fail; pairing never hangs") is a relation between two '
     'asynchronous state machines, user delegates and timers: outside function contracts, NOT claimed',
+    'L1: the IO capability octets are the five defined values 0..4 (an undefined value reaches PAIRING_METHODS[...] and raises KeyError); '
+    'the OOB branch of Tables 2.6/2.7 is decided in the request/response handlers (not under contract), decide_pairing_method is the IO-capability branch; '
+    'both-sides lemma: the negotiated Secure Connections flag is the same on both sides and each AuthReq octet carries the sender\'s MITM flag '
+    '(what Session.auth_req produces, contract); the request/response handlers that pass these values are not under contract',
+    'L2/on_pairing: A1 -- the awaits inside on_pairing (ctkd_task, Manager.on_pairing) are atomic with respect to the session fields; Manager.on_pairing '
+    '(key store update, Device.on_pairing) is a recorded call; requires: pairing_result exists exactly for the initiator (Session.__init__) and ctkd_task '
+    'only on BR/EDR (distribute_keys) -- construction facts, not proved',
+    'L4: KeyStore.get(str(peer address)) yields the entry filed for this peer at pairing (address resolution / identity address bookkeeping is environment); '
+    'Device.send_async_command, lookup_connection, the event watcher and the pending future of encrypt are recorded stubs; no pairing session exists on the '
+    'later connection (Manager.get_long_term_key yields None); the two sessions of one pairing hold the same Secure Connections LTK (f5 of the same inputs: '
+    'C14 + the exchange) and each legacy session received exactly the LTK/EDIV/Rand the other distributed (the transport, C05/C18); '
+    'reconnection_keys_agree_code runs on sessions without IRK/CSRK/link key/identity address',
+    'the controller\'s part (LL_ENC_REQ carrying Rand/EDIV, LE Long Term Key Request event, Host.on_hci_le_long_term_key_request_event calling the provider) is environment',
 ]
 
 PM = smp.PairingMethod
